@@ -27,17 +27,17 @@ def optUnit (s : String) : Option (Option U) :=
 
 /-- history of one metric object: tokens `P k v…` (process_data with fresh native values), `C unit`
 (change_unit, exceptions ignored), `R` (get_result → `unit hex(label) piPow k v…`) -/
-def runReuse (name : String) : Nat → PE → List String → List String → Option (List String)
+def runReuse (name : String) (native : U) : Nat → PE → List String → List String → Option (List String)
   | 0, _, _, acc => some acc.reverse
   | _, _, [], acc => some acc.reverse
   | fuel+1, pe, "P" :: rest, acc => do
       let (v, rest) ← readRatList rest
-      runReuse name fuel (processData pe v) rest acc
+      runReuse name native fuel (processData native pe v) rest acc
   | fuel+1, pe, "C" :: u :: rest, acc => do
       let u ← unitOf u
-      runReuse name fuel ((changeUnit pe u).getD pe) rest acc
+      runReuse name native fuel ((changeUnit pe u).getD pe) rest acc
   | fuel+1, pe, "R" :: rest, acc =>
-      runReuse name fuel pe rest
+      runReuse name native fuel pe rest
         ((pe.unit.name ++ " " ++ hex (metricLabel name pe.unit) ++ " " ++ toString pe.piPow ++ " " ++
           toString pe.error.length ++ (if pe.error.isEmpty then "" else " " ++ showRats pe.error)) :: acc)
   | _, _, _, _ => none
@@ -59,7 +59,7 @@ def handle (op : String) (args : List String) : Option String :=
   match op, args with
   | "reuse", name :: u :: rest => do
       let name ← unhex name; let u ← unitOf u
-      let outs ← runReuse name (rest.length + 1) { unit := u, error := [] } rest []
+      let outs ← runReuse name u (rest.length + 1) { unit := u, error := [] } rest []
       some (" ; ".intercalate outs)
   | "stats", rest => do
       let (e, _) ← readRatList rest
